@@ -32,7 +32,7 @@ def prepare(scratch):
     shutil.copytree(KANI_SRC, scratch.kani, ignore=shutil.ignore_patterns("target"))
     shutil.copy(os.path.join(scratch.repo, "Cargo.lock"), os.path.join(scratch.kani, "Cargo.lock"))
     t = time.time()
-    p = subprocess.run(["cargo", "kani", "--only-codegen"], cwd=scratch.kani, env=_env(),
+    p = subprocess.run(["cargo", "kani", "-Z", "stubbing", "--only-codegen"], cwd=scratch.kani, env=_env(),
                        stdout=subprocess.PIPE, stderr=subprocess.STDOUT, text=True)
     if p.returncode != 0:
         errs = [l for l in p.stdout.splitlines() if l.startswith("error")]
@@ -41,7 +41,9 @@ def prepare(scratch):
 
 
 def _run(scratch, args, timeout):
-    cmd = "ulimit -v %d; exec timeout -k 5 %d cargo kani %s" % (MEM_KB, timeout, args)
+    # -Z stubbing only allows the #[kani::stub] attributes of the C16 harnesses to compile; stubs apply to the
+    # harnesses that carry them and are listed in the evidence of those harnesses
+    cmd = "ulimit -v %d; exec timeout -k 5 %d cargo kani -Z stubbing %s" % (MEM_KB, timeout, args)
     t = time.time()
     p = subprocess.run(["bash", "-c", cmd], cwd=scratch.kani, env=_env(),
                        stdout=subprocess.PIPE, stderr=subprocess.STDOUT, text=True)
@@ -59,9 +61,9 @@ def _parse(out):
 def run_harness(scratch, h):
     r = Result(h.name, "kani", h.claim, h.bounds, h.functions)
     rc, out, wall = _run(scratch, "--exact --harness %s %s" % (h.name, h.args), h.timeout)
-    if h.args:
-        r.extra["kani_args"] = h.args
-        r.extra["stubs"] = re.findall(r'- Stub: (.*)', out)
+    stubs = re.findall(r'- Stub: (.*)', out)
+    if stubs:
+        r.extra["stubs"] = stubs
     r.wall_s = wall
     r.queries = 1
     failed, ver, vt, cov = _parse(out)
@@ -133,7 +135,7 @@ def run_playback(scratch, code, names):
     rel = {"CARGO_PROFILE_DEV_OPT_LEVEL": "3", "CARGO_PROFILE_DEV_DEBUG_ASSERTIONS": "false",
            "CARGO_PROFILE_DEV_OVERFLOW_CHECKS": "false"}
     for prof in ({}, rel):
-        cmd = ["cargo", "kani", "playback", "-Z", "concrete-playback", "--", "kani_concrete_playback"]
+        cmd = ["cargo", "kani", "playback", "-Z", "concrete-playback", "-Z", "stubbing", "--", "kani_concrete_playback"]
         e = _env()
         e.update(prof)
         p = subprocess.run(cmd, cwd=scratch.kani, env=e, stdout=subprocess.PIPE, stderr=subprocess.STDOUT, text=True)
